@@ -590,6 +590,9 @@ def run(ctx):
     ]
     rng = random.Random(ctx.seed * 15485863 + 9)
     thorough = ctx.tier == "thorough"
+    def mc(*a, **k):        # quick: 8 TLC workers (less spinning on a shared machine), thorough: 16
+        k.setdefault("workers", ctx.pick(8, 16))
+        return ctx.model_check(*a, **k)
     stats_set = core.Raw("{%s}" % ", ".join('"%s"' % s for s in STATS))
     if os.environ.get("VERIF_C09_STAGE") == "R":      # development aid: replay only (mutation testing)
         return replay_all(ctx, rng)
@@ -604,16 +607,16 @@ def run(ctx):
             RMODE=rmode, STATS=stats_set, MUT=mut))
     # quick keeps the non-square 3x4 (+ the two 1-wide shapes); all sixteen shapes <= 4x4 run in thorough
     ids_shapes = all_shapes if thorough else [(3, 4), (4, 1), (1, 4), (2, 2)]
-    ctx.model_check("Focal", focal_cfg(ids_shapes, [(1, 3), (3, 1), (3, 3)], KFAMILY, "ids"), "ids_all_masks",
+    mc("Focal", focal_cfg(ids_shapes, [(1, 3), (3, 1), (3, 3)], KFAMILY, "ids"), "ids_all_masks",
                     coverage=False)
-    ctx.model_check("Focal", focal_cfg([(2, 2)], [(1, 3), (3, 1)],
+    mc("Focal", focal_cfg([(2, 2)], [(1, 3), (3, 1)],
                                        KFAMILY + K33_SEL if thorough else KFAMILY[6:8] + K33_SEL[:6], "all"),
                     "values_2x2")
     if thorough:
-        ctx.model_check("Focal", focal_cfg([(2, 2), (1, 3), (3, 1)], [(1, 3), (3, 1), (3, 3)], KFAMILY, "all",
+        mc("Focal", focal_cfg([(2, 2), (1, 3), (3, 1)], [(1, 3), (3, 1), (3, 3)], KFAMILY, "all",
                                            vals=[0, 1, "nan"]), "values_small_all_masks")
-        ctx.model_check("Focal", focal_cfg([(2, 3)], [(1, 3)], KFAMILY[6:8] + K33_SEL[:6], "all"), "values_2x3")
-        ctx.model_check("Focal", focal_cfg([(4, 4)], [(3, 1)], KFAMILY[6:] + K33_SEL[:4], "sparse",
+        mc("Focal", focal_cfg([(2, 3)], [(1, 3)], KFAMILY[6:8] + K33_SEL[:6], "all"), "values_2x3")
+        mc("Focal", focal_cfg([(4, 4)], [(3, 1)], KFAMILY[6:] + K33_SEL[:4], "sparse",
                                            vals=[1, "nan"]), "values_4x4_sparse")
     # every negative twin runs in thorough; quick runs the starred subset (a JVM start costs 3-4 CPU-s)
     def twins(lst):
@@ -625,7 +628,7 @@ def run(ctx):
         cfg = focal_cfg([(3, 4), (2, 2)] if mut != "nan_counts" else [(2, 2)], [(1, 3), (3, 1)], KFAMILY + K33_SEL,
                         "ids" if mut != "nan_counts" else "all", mut=mut)
         cfg["invariants"] = [inv]
-        ctx.model_check("Focal", cfg, "neg_" + mut, expect="violation", workers=2)
+        mc("Focal", cfg, "neg_" + mut, expect="violation", workers=2)
 
     # ---------------------------------------------------------------- M : FocalMean.tla
     inv_m = ["MeanIsIteratedWindowMean", "ResultAfterAllPasses", "ExcludedPassThrough", "OthersAreWindowMeans",
@@ -634,20 +637,20 @@ def run(ctx):
     def mean_cfg(shapes, vals, mut="none", passes=2):
         return dict(spec="Spec", invariants=inv_m, constants=dict(
             SHAPES=tla_shapes(shapes), VALS=tla_vals(vals), EXCLS=tla_excls(EXCLS), PASSES=passes, MUT=mut))
-    ctx.model_check("FocalMean", mean_cfg([(2, 2), (1, 3), (3, 1), (1, 1)], VALS4), "mean_small", workers=8)
+    mc("FocalMean", mean_cfg([(2, 2), (1, 3), (3, 1), (1, 1)], VALS4), "mean_small", workers=8)
     if thorough:
-        ctx.model_check("FocalMean", mean_cfg([(2, 3), (3, 2)], VALS4), "mean_2x3")
+        mc("FocalMean", mean_cfg([(2, 3), (3, 2)], VALS4), "mean_2x3")
     else:
-        ctx.model_check("FocalMean", mean_cfg([(2, 3)], [0, 1, "nan"]), "mean_2x3_01nan")
+        mc("FocalMean", mean_cfg([(2, 3)], [0, 1, "nan"]), "mean_2x3_01nan")
     if thorough:
-        ctx.model_check("FocalMean", mean_cfg([(3, 3)], [0, 1, "nan"]), "mean_3x3_01nan")
-        ctx.model_check("FocalMean", mean_cfg([(2, 4)], [0, 2, "nan"]), "mean_2x4_02nan")
+        mc("FocalMean", mean_cfg([(3, 3)], [0, 1, "nan"]), "mean_3x3_01nan")
+        mc("FocalMean", mean_cfg([(2, 4)], [0, 2, "nan"]), "mean_2x4_02nan")
     for mut, inv in twins((("no_clip_right", "OthersAreWindowMeans", 1), ("exclude_to_nan", "ExcludedPassThrough"),
                            ("exclude_neighbours", "MeanIsIteratedWindowMean"),
                            ("nan_not_equal", "ExcludedPassThrough", 1), ("one_pass", "ResultAfterAllPasses", 1))):
         cfg = mean_cfg([(2, 2), (1, 3)], VALS4, mut=mut)
         cfg["invariants"] = [inv]
-        ctx.model_check("FocalMean", cfg, "neg_" + mut, expect="violation", workers=2)
+        mc("FocalMean", cfg, "neg_" + mut, expect="violation", workers=2)
 
     # ---------------------------------------------------------------- M : FocalConv.tla
     inv_c = ["ConvIsWeightedWindowSum", "NaNWhereWindowLeaves", "AgreesWithFocalSum"]
@@ -655,18 +658,18 @@ def run(ctx):
     def conv_cfg(shapes, vals, mut="none"):
         return dict(spec="Spec", invariants=inv_c, constants=dict(
             SHAPES=tla_shapes(shapes), VALS=tla_vals(vals), WKERNELS=tla_wkernels(WK_MODEL), MUT=mut))
-    ctx.model_check("FocalConv", conv_cfg([(1, 3), (3, 1), (2, 3), (1, 4)], VALS4), "conv_small")
-    ctx.model_check("FocalConv", conv_cfg([(3, 3)], [0, 1] if not thorough else [0, 1, 2]), "conv_3x3")
+    mc("FocalConv", conv_cfg([(1, 3), (3, 1), (2, 3), (1, 4)], VALS4), "conv_small")
+    mc("FocalConv", conv_cfg([(3, 3)], [0, 1] if not thorough else [0, 1, 2]), "conv_3x3")
     if thorough:
-        ctx.model_check("FocalConv", conv_cfg([(3, 3)], [0, 1, "nan"]), "conv_3x3_nan")
-        ctx.model_check("FocalConv", conv_cfg([(2, 4), (4, 2)], [0, 1, "nan"]), "conv_2x4")
-        ctx.model_check("FocalConv", conv_cfg([(3, 4)], [0, 1]), "conv_3x4")
+        mc("FocalConv", conv_cfg([(3, 3)], [0, 1, "nan"]), "conv_3x3_nan")
+        mc("FocalConv", conv_cfg([(2, 4), (4, 2)], [0, 1, "nan"]), "conv_2x4")
+        mc("FocalConv", conv_cfg([(3, 4)], [0, 1]), "conv_3x4")
     for mut, inv in twins((("flip_kernel", "ConvIsWeightedWindowSum", 1), ("clip_border", "NaNWhereWindowLeaves", 1),
                            ("skip_nan", "ConvIsWeightedWindowSum"), ("swap_half", "ConvIsWeightedWindowSum"),
                            ("zero_weight_hides_nan", "ConvIsWeightedWindowSum"))):
         cfg = conv_cfg([(1, 3), (3, 1)], [0, 1, "nan"], mut=mut)
         cfg["invariants"] = [inv]
-        ctx.model_check("FocalConv", cfg, "neg_" + mut, expect="violation", workers=2)
+        mc("FocalConv", cfg, "neg_" + mut, expect="violation", workers=2)
 
     # ---------------------------------------------------------------- M : Hotspots.tla
     inv_l = ["LadderIsThresholdForm", "LadderOdd", "LadderRange", "LadderMonotone", "LadderSign"]
@@ -677,22 +680,22 @@ def run(ctx):
                                                      ["NegationSymmetry", "RasterRange", "BandAdmitsExact"]),
                     constants=dict(MODE=mode, ZMAX=4000, SHAPES=tla_shapes(shapes), VALS=tla_vals(list(vals)),
                                    KERNELS=kernels or hk, MUT=mut))
-    ctx.model_check("Hotspots", hot_cfg("ladder"), "ladder", workers=4)
+    mc("Hotspots", hot_cfg("ladder"), "ladder", workers=4)
     k13 = [[[1, 1, 0]], [[0, 1, 1]]]
     if thorough:
-        ctx.model_check("Hotspots", hot_cfg("raster", shapes=((3, 3),), vals=(0, 1, 2)), "raster_3x3")
-        ctx.model_check("Hotspots", hot_cfg("raster", shapes=((3, 3),), vals=(0, 1, "nan"), kernels=hk[:2]),
+        mc("Hotspots", hot_cfg("raster", shapes=((3, 3),), vals=(0, 1, 2)), "raster_3x3")
+        mc("Hotspots", hot_cfg("raster", shapes=((3, 3),), vals=(0, 1, "nan"), kernels=hk[:2]),
                         "raster_3x3_nan")
     else:
-        ctx.model_check("Hotspots", hot_cfg("raster", shapes=((3, 3),), vals=(0, 1), kernels=hk[:2]), "raster_3x3",
+        mc("Hotspots", hot_cfg("raster", shapes=((3, 3),), vals=(0, 1), kernels=hk[:2]), "raster_3x3",
                         workers=8)
-        ctx.model_check("Hotspots", hot_cfg("raster", shapes=((2, 3),), vals=(0, 1, "nan"), kernels=k13),
+        mc("Hotspots", hot_cfg("raster", shapes=((2, 3),), vals=(0, 1, "nan"), kernels=k13),
                         "raster_2x3_nan", workers=8)
     if thorough:
-        ctx.model_check("Hotspots", hot_cfg("raster", shapes=((3, 4), (4, 3)), vals=(0, 2)), "raster_3x4")
+        mc("Hotspots", hot_cfg("raster", shapes=((3, 4), (4, 3)), vals=(0, 2)), "raster_3x4")
     for mut, inv in twins((("p233", "LadderIsThresholdForm", 1), ("ge", "LadderIsThresholdForm"),
                            ("abs_lost", "LadderOdd", 1), ("t95", "LadderIsThresholdForm"))):
-        ctx.model_check("Hotspots", hot_cfg("ladder", mut=mut, inv=[inv]), "neg_" + mut, expect="violation", workers=2)
+        mc("Hotspots", hot_cfg("ladder", mut=mut, inv=[inv]), "neg_" + mut, expect="violation", workers=2)
     ctx.exhaustive = True
     if os.environ.get("VERIF_C09_STAGE") == "M":      # development aid: model checking only
         return
